@@ -403,6 +403,17 @@ def check_catalog_mtests(ctx, case):
         q = runs[0].quantile
         if q[0] is not None and not (0 <= q[0] <= 1 and 0 <= q[1] <= 1):
             ctx.violation(name + ":quantile_out_of_range", {"q": list(q)})
+        # the quantiles are fractions of the returned distribution: (simulated >= observed, simulated <= observed), repeated values
+        # counted with their multiplicity (few events and bins give many repeats)
+        qq = ctx.normalize(name + ":quantile", lambda: (float(q[0]), float(q[1]), float(runs[0].observed_statistic))) if q[0] is not None else None
+        if qq is not None and ta and not math.isnan(qq[2]):
+            ge = sum(1 for x in ta if x >= qq[2]) / len(ta)
+            le = sum(1 for x in ta if x <= qq[2]) / len(ta)
+            ctx.count("catalog_mtest_quantiles_recounted")
+            if len(set(ta)) < len(ta):
+                ctx.count("catalog_mtest_distributions_with_repeated_values")
+            if abs(qq[0] - ge) > 1e-12 or abs(qq[1] - le) > 1e-12:
+                ctx.violation(name + ":quantiles_not_the_fractions_of_the_distribution", {"got": [qq[0], qq[1]], "want": [ge, le], "n": len(ta)})
 
 
 def nontrivial(case):
